@@ -11,6 +11,7 @@ import sys
 
 FILES = ["root/f", "root/d/f", "root2/secret", "other/secret", "secret"]
 LINK_LOCS = ["l", "d/l"]           # relative to root
+HERMETIC = ["q1", "q2", "q3", "q4", "q5", "q6"]
 
 
 def marker(rel):
@@ -20,9 +21,12 @@ def marker(rel):
 
 
 def build_universe(base, links=(), extra_files=()):
-    """Creates base/T/... ; links = [[location-relative-to-root, target-with-{T}-placeholder], ...].
-    Returns (T, root)."""
-    T = os.path.join(base, "T")
+    """Creates base/q1/../q6/T/... ; links = [[location-relative-to-root, target], ...] where the target may use
+    the placeholders {T} and {B} (= parent directory of T). Returns (T, root)."""
+    # T sits six levels below the scratch base so that no path within the enumeration bounds ('..' segments,
+    # links to ancestors) can ever leave the scratch area: the universe is hermetic and machine independent.
+    P = os.path.join(base, *HERMETIC)
+    T = os.path.join(P, "T")
     for d in ("root/d", "root2", "other"):
         os.makedirs(os.path.join(T, d))
     for rel in list(FILES) + list(extra_files):
@@ -32,7 +36,7 @@ def build_universe(base, links=(), extra_files=()):
             fh.write(marker(rel) + "\nsecond line\n")
     root = os.path.join(T, "root")
     for loc, target in links:
-        os.symlink(target.replace("{T}", T).replace("{B}", base), os.path.join(root, loc))
+        os.symlink(target.replace("{T}", T).replace("{B}", P), os.path.join(root, loc))
     return T, root
 
 
